@@ -281,6 +281,7 @@ func histDesc(ops []mOp) []string {
 // ---------- the real mailbox ----------
 
 type realBox struct {
+	nToggle int
 	root string
 	h    *mailbox.DirHandler
 }
@@ -401,6 +402,18 @@ func (b *realBox) exec(o mOp) (res string) {
 						return "t"
 					}
 					return "f"
+				}
+				// A mail client keeps the opened message and toggles its flag several times: every second
+				// SetUnread is therefore issued as flag, !flag, flag on the SAME message value (same net effect;
+				// any error on the way is the operation's error).
+				b.nToggle++
+				if b.nToggle%2 == 0 {
+					if err := mailbox.SetUnread(m, o.B); err != nil {
+						return errTok(err)
+					}
+					if err := mailbox.SetUnread(m, !o.B); err != nil {
+						return "err-second-toggle-on-same-message"
+					}
 				}
 				return errTok(mailbox.SetUnread(m, o.B))
 			}
